@@ -113,6 +113,7 @@ def n_measuring(circ):
 
 
 def gen_circuit(rng, allow_mz=False, max_ops=14, max_meas=4):
+    import graphiq.circuit.ops as ops
     from graphiq.circuit.circuit_dag import CircuitDAG
 
     ne = rng.randint(1, 3)
@@ -121,7 +122,17 @@ def gen_circuit(rng, allow_mz=False, max_ops=14, max_meas=4):
     circ = CircuitDAG(n_emitter=ne, n_photon=n_p, n_classical=nc)
     for _ in range(rng.randint(1, max_ops)):
         op = rand_op(rng, ne, n_p, nc, allow_mz, n_measuring(circ) < max_meas)
-        if rng.random() < 0.75:
+        w_hist = rng.random()
+        if w_hist < 0.15 and type(op).__name__ in G1 and type(op).__name__ != "Identity":
+            # reached through `replace_op`: an Identity placeholder is added first and then exchanged for the real gate (a node whose class
+            # changed after it was indexed — what the rewrites look up by class must follow)
+            circ.add(ops.Identity(register=op.register, reg_type=op.reg_type))
+            circ.replace_op(max(n for n in circ.dag.nodes if isinstance(n, int)), op)
+        elif w_hist < 0.22 and type(op).__name__ in G1 and type(op).__name__ != "Identity":
+            # … or a real gate exchanged for an Identity (which `remove_identity` must then find)
+            circ.add(op)
+            circ.replace_op(max(n for n in circ.dag.nodes if isinstance(n, int)), ops.Identity(register=op.register, reg_type=op.reg_type))
+        elif rng.random() < 0.75:
             circ.add(op)
         else:
             # insert on a random edge of each of its quantum registers; keep the DAG acyclic
